@@ -80,7 +80,10 @@ def rule_prov(ctx) -> RuleResult:
             ok = not bad
             res.inst(f"CellMerger.create_object: offset source `{unparse(s)[:50]}`", nontrivial=True, ok=ok)
             if not ok:
-                res.find("CellMerger", "create_object", f"cell offset derives from {bad[0]}: {unparse(s)[:50]}", f"{cm.module.relpath}:{getattr(s, 'lineno', cm.node.lineno)}",
+                # key without local spellings: the offending source is named by what it is (an attribute chain keeps its text, a local becomes <local>)
+                shown = lambda t: t if "." in t or "(" in t else "<local>"  # noqa: E731
+                res.find("CellMerger", "create_object", f"cell offset derives from {shown(bad[0])}",
+                         f"{cm.module.relpath}:{getattr(s, 'lineno', cm.node.lineno)}",
                          f"the offset added to each input's cells comes from `{unparse(s)[:50]}` (a cell-value source) instead of the input's vertex "
                          "count: an input with a vertex above its highest referenced one shifts every following input's cells onto wrong vertices")
     md = p.func("BaseMerger.merge_data")
@@ -118,7 +121,14 @@ def rule_prov(ctx) -> RuleResult:
         if k not in seen_keys and not any(f.member == "merge_data" for f in res.findings):
             res.find("BaseMerger", "merge_data", f"the {k} offset is never advanced", md.where, f"every input's {k} data is written at offset 0")
     # slice end = start + n_values
-    tup = [n for n in ast.walk(md.node) if isinstance(n, ast.Assign) and isinstance(n.targets[0], ast.Tuple) and [unparse(t) for t in n.targets[0].elts] == ["start", "end"]]
+    # the destination slice bounds: the pair of locals used as `<values>[a:b] = <data>.values`
+    bounds = None
+    for n in ast.walk(md.node):
+        if isinstance(n, ast.Assign) and isinstance(n.targets[0], ast.Subscript) and isinstance(n.targets[0].slice, ast.Slice) and unparse(n.value).endswith(".values"):
+            sl = n.targets[0].slice
+            if isinstance(sl.lower, ast.Name) and isinstance(sl.upper, ast.Name):
+                bounds = [sl.lower.id, sl.upper.id]
+    tup = [n for n in ast.walk(md.node) if isinstance(n, ast.Assign) and isinstance(n.targets[0], ast.Tuple) and bounds and [unparse(t) for t in n.targets[0].elts] == bounds]
     if not tup:
         raise AnalysisError("BaseMerger.merge_data: `start, end = ...` not found")
     v = tup[0].value
@@ -130,7 +140,8 @@ def rule_prov(ctx) -> RuleResult:
         res.find("BaseMerger", "merge_data", f"slice is {unparse(v)[:70]}", f"{md.module.relpath}:{tup[0].lineno}",
                  "the destination slice is not [offset of this association, offset + n_values)")
     key = tup[0]
-    assoc = [n for n in ast.walk(md.node) if isinstance(n, ast.Assign) and unparse(n.targets[0]) == "association"]
+    sel = v.elts[0].slice.id if isinstance(v, ast.Tuple) and v.elts and isinstance(v.elts[0], ast.Subscript) and isinstance(v.elts[0].slice, ast.Name) else None
+    assoc = [n for n in ast.walk(md.node) if isinstance(n, ast.Assign) and sel is not None and unparse(n.targets[0]) == sel]
     ok = bool(assoc) and unparse(assoc[0].value).endswith("association.name")
     res.inst("merge_data: the offset is selected by the data's own association", ok=ok)
     if not ok:
